@@ -114,12 +114,12 @@ class HiddenTunnelCommunity(TunnelCommunity):
         self.add_cell_handler(IntroEstablishedPayload, self.on_intro_established)
         self.add_cell_handler(EstablishRendezvousPayload, self.on_establish_rendezvous)
         self.add_cell_handler(RendezvousEstablishedPayload, self.on_rendezvous_established)
-        self.add_cell_handler(CreateE2EPayload, self.on_create_e2e)
-        self.add_cell_handler(CreatedE2EPayload, self.on_created_e2e)
+        self.add_cell_handler(CreateE2EPayload, self.on_create_e2e, from_exit=True)
+        self.add_cell_handler(CreatedE2EPayload, self.on_created_e2e, from_exit=True)
         self.add_cell_handler(LinkE2EPayload, self.on_link_e2e)
         self.add_cell_handler(LinkedE2EPayload, self.on_linked_e2e)
-        self.add_cell_handler(PeersRequestPayload, self.on_peers_request)
-        self.add_cell_handler(PeersResponsePayload, self.on_peers_response)
+        self.add_cell_handler(PeersRequestPayload, self.on_peers_request, from_exit=True)
+        self.add_cell_handler(PeersResponsePayload, self.on_peers_response, from_exit=True)
 
         self.register_task("do_peer_discovery", self.do_peer_discovery, interval=10)
 
